@@ -24,6 +24,7 @@ import (
 	"io"
 	"net/http"
 	"net/url"
+	"slices"
 	"strings"
 	"time"
 
@@ -347,9 +348,17 @@ func (a *remoteAuthorizer) calculateCacheKey(sub *subject.Subject, values map[st
 	hash.Write(ttlBytes)
 	hash.Write(sub.Hash())
 
-	for k, v := range values {
+	// iterate in a defined order. Otherwise the key depends on the random map iteration order
+	valueNames := make([]string, 0, len(values))
+	for k := range values {
+		valueNames = append(valueNames, k)
+	}
+
+	slices.Sort(valueNames)
+
+	for _, k := range valueNames {
 		hash.Write(stringx.ToBytes(k))
-		hash.Write(stringx.ToBytes(v))
+		hash.Write(stringx.ToBytes(values[k]))
 	}
 
 	return hex.EncodeToString(hash.Sum(nil))
